@@ -756,8 +756,20 @@ func harvestConstants(f *ast.File) {
 
 // scanBlocking notes whether a file could block a goroutine or start one.
 func scanBlocking(f *ast.File) {
+	// Packages that neither block, nor start goroutines, nor run callbacks on
+	// goroutines of their own. Anything else a file imports (sync, time, context,
+	// runtime — finalizers —, iter — coroutines —, a dependency such as
+	// golang.org/x/sync/errgroup …) may make library code run on, or wait for, a
+	// goroutine that no go statement of the module started: the scheduler then
+	// runs with its blocked-task monitor and identifies the caller of every yield.
 	for _, im := range f.Imports {
-		if p, _ := strconv.Unquote(im.Path.Value); p == "sync" || p == "context" || p == "time" {
+		p, _ := strconv.Unquote(im.Path.Value)
+		switch {
+		case strings.HasPrefix(p, modPath):
+		case p == "bytes", p == "errors", p == "fmt", p == "hash", p == "io", p == "math", p == "slices", p == "strconv", p == "strings", p == "unsafe", p == "sort", p == "cmp", p == "maps",
+			p == "unicode", p == "unicode/utf8", p == "crypto", p == "crypto/rand", p == "crypto/subtle", p == "crypto/sha256", p == "crypto/sha512", p == "crypto/hmac",
+			strings.HasPrefix(p, "encoding/"), strings.HasPrefix(p, "math/"), strings.HasPrefix(p, "hash/"):
+		default:
 			mayBlock = true
 		}
 	}
